@@ -82,6 +82,7 @@ Verdicts == [k \in 1..Len(Obs) |-> Verdict(Obs[k])]
 \*   edge        - the walk over an internal-memory operand passes the ends of the internal memory
 Explains(v) == v[1] = "ok"
 Tag(r) ==
+  IF r.huge = 1 THEN <<>> ELSE          \* (no alternative readings for the block records: they are not unrolled)
   LET d == Decode(SubSeq(r.b, 1, r.n))
       st0 == St0(r)
       st0c == [st0 EXCEPT !.r.F = (@ \div 2) * 2]
